@@ -17,7 +17,9 @@ RULE = ('gin-machine/macros: 1-3 parse phases; macro definitions, uses (%m) and 
         'are two or more different macros (also scope-like names differing only in their prefix, macros bound to @g(), '
         'defined before / after the use or never): the delivered dict, the number of runs of g and the verdict of finalize '
         'are computed from the op list alone (last successful definition of every macro, last successful binding of every '
-        'parameter), never from what gin stored.')
+        'parameter), never from what gin stored. Key macros may evaluate to EQUAL keys (1 / True, equal strings, equal tuples: '
+        'one entry, the earlier key and place, the later value) and to a list (TypeError); under a macro key stand literals, '
+        '@g(), macros and unbound macros (within one item the value is evaluated before the key).')
 TRUSTED_BASE = c01.TRUSTED_BASE
 ASSUMPTIONS = []
 
@@ -25,23 +27,46 @@ ASSUMPTIONS = []
 # one being bound says nothing about another)
 MACROS = ['mm', 'nn', 's1/mm', 's1', 's1/s2/mm']
 CONSTS = ['K', 'a.K', 'b.a.K', 'x.Y', 'Y', 'c.Z']
-# macros that stand in KEY position of dict literals.  What they are bound to is always hashable, and the values of two
-# different key macros never coincide (value domains are disjoint: equal keys would merge, which is CPython's business and
-# not modelled).  's1/hk' and 's2/hk' differ only in the scope-like prefix.
+# macros that stand in KEY position of dict literals.  The values of two different key macros may coincide (small shared
+# domains; True == 1, False == 0, equal tuples): equal keys are ONE entry of the delivered dict, which keeps the earlier key
+# and place and takes the later value (the model's vdict_set); now and then a key macro is bound to a list, which cannot be
+# hashed (TypeError at the call).  's1/hk' and 's2/hk' differ only in the scope-like prefix.
 KEYMACROS = ['hk', 'kk', 's1/hk', 's2/hk']
 KEYCONSTS = [('q.KA', 'KA', 'ka'), ('q.r.KB', 'r.KB', 'kb'), ('q.r.KC', 'KC', 'kc')]
 SIMPLE_OPS = {'pbind', 'call', 'with', 'constant', 'query', 'finalize', 'locked', 'dumpcalls', 'dumpconfig'}
 
 
 def key_value(rng, m, helper):
-  """a value for the key macro m: an int or a string of m's own domain, or a fresh object per use (@helper())"""
-  i = KEYMACROS.index(m)
+  """a value for the key macro m, from domains shared by all key macros (so that two keys of one literal may be equal
+  after evaluation): a small int, a bool (True == 1), a string, a tuple, rarely a list (unhashable), or a fresh object
+  per use (@helper())"""
+  del m
   x = rng.random()
-  if x < 0.45:
-    return ['i', 10 * i + rng.randint(0, 9)]
-  if x < 0.8:
-    return ['s', 'k%d%s' % (i, rng.choice('abc'))]
+  if x < 0.35:
+    return ['i', rng.randint(0, 2)]
+  if x < 0.47:
+    return ['b', rng.random() < 0.5]
+  if x < 0.7:
+    return ['s', 'k' + rng.choice('ab')]
+  if x < 0.78:
+    return ['t', [rng.choice([['i', 1], ['b', True], ['i', 0]]), ['s', 'k']]]
+  if x < 0.82:
+    return ['l', [['i', 1]]]
   return ['ref', [], helper['sel'], True]
+
+
+def under_key(rng, j, helper):
+  """what stands under a macro key: a literal, @helper() (runs BEFORE the key's own reference: CPython evaluates the
+  right-hand side of y[deepcopy(key)] = deepcopy(value) first), a macro, or a macro nothing binds (then the key is never
+  evaluated)"""
+  x = rng.random()
+  if x < 0.5:
+    return rng.choice([['i', j], ['s', 'v%d' % j]])
+  if x < 0.7:
+    return ['ref', [], helper['sel'], True]
+  if x < 0.92:
+    return ['macro', rng.choice(MACROS + KEYMACROS)]
+  return ['macro', 'undefined']
 
 
 class Skip(Exception):
@@ -178,6 +203,17 @@ def substitute(v, macro_vals, depth=0):
       return substitute(macro_vals[name], macro_vals, depth + 1)
     if v.tag == 'Ref':
       raise KeyError('ref')
+    if v.tag == 'D':
+      items = []
+      for k, x in v.args:
+        sk, sx = substitute(k, macro_vals, depth), substitute(x, macro_vals, depth)
+        for it in items:
+          if it[0] == sk:
+            it[1] = sx         # an equal key: the entry keeps its key and place and takes the later value
+            break
+        else:
+          items.append([sk, sx])
+      return T('D', *items)
     return T(v.tag, *[substitute(a, macro_vals, depth) for a in v.args])
   if isinstance(v, list):
     return [substitute(a, macro_vals, depth) for a in v]
@@ -228,7 +264,27 @@ class MacroEngine(c01.CallEngine):
                 ['pbind', 'f.a', ['d', [[['macro', 'hk'], ['i', 1]], [['macro', 'kk'], ['i', 2]], [['macro', 's1/hk'], ['macro', 'hk']]]]],
                 ['pbind', 'f.b', ['d', [[['macro', 'KA'], ['i', 1]], [['macro', 'r.KB'], ['macro', 'KA']], [['macro', 'hk'], ['i', 3]]]]],
                 ['pbind', 'hk', ['ref', [], 'g', True]], ['pbind', 'kk', ['ref', [], 'g', True]], ['pbind', 's1/hk', ['i', 20]],
-                ['call', 'm.f', [], []], ['call', 'm.f', [], []], ['finalize'], ['locked'], ['dumpcalls'], ['dumpconfig']]}]
+                ['call', 'm.f', [], []], ['call', 'm.f', [], []], ['finalize'], ['locked'], ['dumpcalls'], ['dumpconfig']]},
+            # within ONE item the value is evaluated before the key (y[deepcopy(key)] = deepcopy(value)): the run of g under
+            # the key %hk is numbered after the run of g that is the value; a value that raises (an unbound macro) leaves the
+            # key's g unrun
+            {'regs': [f, g], 'ops': [
+                ['pbind', 'hk', ['ref', [], 'g', True]], ['pbind', 'f.a', ['d', [[['macro', 'hk'], ['ref', [], 'g', True]]]]],
+                ['call', 'm.f', [], []], ['dumpcalls'],
+                ['pbind', 'f.a', ['i', 0]], ['pbind', 'f.b', ['d', [[['s', 'p'], ['i', 1]], [['macro', 'hk'], ['macro', 'undefined']]]]],
+                ['call', 'm.f', [], []], ['dumpcalls'], ['finalize'], ['locked'], ['dumpconfig']]},
+            # keys that are EQUAL after evaluation are one entry (1 == True; equal tuples), which keeps the earlier key and
+            # place and takes the later value; re-binding one key macro separates them again; a key macro bound to a list
+            # cannot be hashed: TypeError, once the value of that item has run and before the next item is touched
+            {'regs': [f, g], 'ops': [
+                ['pbind', 'hk', ['i', 1]], ['pbind', 'kk', ['b', True]], ['pbind', 's1/hk', ['t', [['i', 0], ['s', 'k']]]],
+                ['pbind', 's2/hk', ['t', [['b', False], ['s', 'k']]]],
+                ['pbind', 'f.a', ['d', [[['macro', 'hk'], ['s', 'a']], [['i', 2], ['s', 'b']], [['macro', 'kk'], ['s', 'c']]]]],
+                ['pbind', 'f.b', ['d', [[['macro', 's1/hk'], ['macro', 'hk']], [['macro', 's2/hk'], ['macro', 'kk']]]]],
+                ['call', 'm.f', [], []], ['pbind', 'kk', ['s', 'x']], ['call', 'm.f', [], []],
+                ['pbind', 'kk', ['l', [['i', 1]]]],
+                ['pbind', 'f.b', ['d', [[['i', 1], ['i', 2]], [['macro', 'kk'], ['ref', [], 'g', True]], [['i', 3], ['ref', [], 'g', True]]]]],
+                ['call', 'm.f', [], []], ['finalize'], ['locked'], ['dumpcalls'], ['dumpconfig']]}]
 
   def gen(self, rng, tier):
     regs = []
@@ -266,11 +322,11 @@ class MacroEngine(c01.CallEngine):
           if y < 0.3:
             v = ['l', [['macro', m], ['macro', rng.choice(MACROS)], ['i', 0]]]
           elif y < 0.4:
-            # a macro in KEY position: evaluated at call time, checked at finalize.  Its value must be hashable
-            # (hashability is CPython's, not modelled): an undefined macro, or one bound to an int
+            # a macro in KEY position: evaluated at call time, checked at finalize: an undefined macro, one bound to an
+            # int, or (rarely) to a list: the key cannot be hashed, the call raises TypeError
             mk = rng.choice(['undefined', 'hk'])
             if mk == 'hk':
-              ops.append(['pbind', 'hk', ['i', rng.randint(0, 9)]])
+              ops.append(['pbind', 'hk', ['i', rng.randint(0, 9)] if rng.random() < 0.85 else ['l', [['i', 0]]]])
             v = ['d', [[['macro', mk], ['i', 0]]]]
           elif y < 0.58:
             # a dict literal whose KEYS are two or more DIFFERENT macros (each use is its own entry: each is evaluated at
@@ -288,9 +344,9 @@ class MacroEngine(c01.CallEngine):
                 if full not in kc_defined and rng.random() < 0.85:
                   kc_defined.add(full)
                   ops.append(['constant', full, ['obj', oid]])
-            # (under a macro key stands a literal, macro values stand under literal keys: whether the key or the value of ONE
-            # item is evaluated first is CPython's deepcopy order, observable only if both run something or raise; not modelled)
-            items = [[['macro', k], rng.choice([['i', j], ['s', 'v%d' % j]])] for j, k in enumerate(ks)]
+            # (under a macro key stands a literal, @helper(), a macro or an unbound macro: within ONE item the value is
+            # evaluated before the key)
+            items = [[['macro', k], under_key(rng, j, helper)] for j, k in enumerate(ks)]
             for j in range(rng.choice([0, 0, 1, 1, 2])):
               items.insert(rng.randrange(len(items) + 1), [['s', 'plain%d' % j], rng.choice([['macro', m], ['macro', rng.choice(MACROS)], ['i', 7]])])
             v = ['d', items]
@@ -305,6 +361,28 @@ class MacroEngine(c01.CallEngine):
                   ops.append(['pbind', k, key_value(rng, k, helper)])
                 elif w < 0.8:
                   after.append(['pbind', k, key_value(rng, k, helper)])
+          elif y < 0.68:
+            # the same, focused on what CPython's dict does with the evaluated keys: every key macro is bound right here
+            # from the small shared domains (equal keys are likely: one entry), under the keys stand literals, @helper()
+            # (runs before the key's own reference), the key macros themselves, now and then an unbound macro (raises
+            # before the key is evaluated); the consumer's other parameters get literals so that the call that follows
+            # reaches the dict
+            ks = rng.sample(KEYMACROS, rng.randint(2, 3))
+            for k in ks:
+              ops.append(['pbind', k, key_value(rng, k, helper)])
+            items = []
+            for j, k in enumerate(ks):
+              z = rng.random()
+              items.append([['macro', k], rng.choice([['i', j], ['s', 'v%d' % j]]) if z < 0.45 else
+                            ['ref', [], helper['sel'], True] if z < 0.7 else
+                            ['macro', rng.choice(ks)] if z < 0.93 else ['macro', 'undefined']])
+            if rng.random() < 0.4:
+              items.insert(rng.randrange(len(items) + 1), [rng.choice([['i', 1], ['b', False], ['s', 'ka'], ['i', 2]]), ['s', 'lit']])
+            v = ['d', items]
+            for q in consumer['sig']['args']:
+              if q != p and rng.random() < 0.8:
+                ops.append(['pbind', consumer['sel'] + '.' + q, ['i', 5]])
+            after.append(['call', consumer['sel'], [], []])
           ops.append(['pbind', consumer['sel'] + '.' + p, v])
           ops += after
         elif r < 0.85:    # constants
@@ -475,6 +553,9 @@ class MacroEngine(c01.CallEngine):
         want_runs = 0
         ok = True
         for p, v in bound.items():
+          # evaluated references to the helper that stand inside a container (under a macro key): one run each
+          if not (isinstance(v, T) and v.tag == 'Ref'):
+            want_runs += sum(1 for r in c04.refs_in(v) if r.args[1] not in ('gin.macro', 'gin.constant') and r.args[2])
           for name in uses_of(v):
             mv = mvals.get(name)
             while isinstance(mv, T) and mv.tag == 'Ref' and mv.args[1] == 'gin.macro':
